@@ -156,6 +156,8 @@ def punctured(draw, s):
 @st.composite
 def meshes(draw, kinds=("polyline", "polyline", "surface", "surface", "volume")):
     kind = draw(st.sampled_from(list(kinds)))
+    if draw(st.integers(0, 79)) == 0 and kind != "volume":
+        return large_mesh(draw(st.integers(0, 10 ** 6)), "polyline" if kind == "polyline" else "surface")
     if kind == "polyline":
         return draw(polylines())
     if kind in ("surface", "border-surface"):
@@ -169,6 +171,30 @@ def meshes(draw, kinds=("polyline", "polyline", "surface", "surface", "volume"))
         return {"kind": "surface", "V": s["V"], "F": [list(map(int, f)) for f in s["F"]], "tags": s["tags"]}
     t = draw(GT.tets(max_cells=25))
     return {"kind": "volume", "V": t["V"], "C": t["C"], "tags": t["tags"]}
+
+
+def large_mesh(seed, what):
+    """a mesh well above 1000 vertices (any plausible internal size threshold): jittered triangulated / quad grid or lattice polyline"""
+    rnd = random.Random(seed)
+    nu, nv = rnd.randint(33, 38), rnd.randint(33, 38)
+    idx = lambda i, j: i * nv + j
+    V = [[i + rnd.uniform(-0.3, 0.3), j + rnd.uniform(-0.3, 0.3), rnd.uniform(0, 0.5)] for i in range(nu) for j in range(nv)]
+    if what == "polyline":
+        E = []
+        for i in range(nu):
+            for j in range(nv):
+                if i + 1 < nu and rnd.random() < 0.9: E.append([idx(i, j), idx(i + 1, j)])
+                if j + 1 < nv and rnd.random() < 0.9: E.append([idx(i, j), idx(i, j + 1)])
+        return {"kind": "polyline", "V": V, "E": E, "tags": ["shape=large-lattice", "coords=float", "large"]}
+    F = []
+    for i in range(nu - 1):
+        for j in range(nv - 1):
+            a, b, c, d = idx(i, j), idx(i + 1, j), idx(i + 1, j + 1), idx(i, j + 1)
+            if rnd.random() < 0.5:
+                F += [[a, b, c], [a, c, d]]
+            else:
+                F += [[a, b, d], [b, c, d]]
+    return {"kind": "surface", "V": V, "F": F, "tags": ["base=large-grid", "bordered", "comps=1", "large"]}
 
 
 def ref_edges(case):
@@ -205,8 +231,11 @@ def realise_weights(rnd, wkind, m):
 WMODES = ["omitted", "length", "one", "one", "dict", "dict", "attr", "attr_partial", "attr_dense"]
 
 
-SCALES = [1.0, 1.0, 1.0, 1e-3, 1e-6, 1e3, 1e6]
-WSCALES = [1.0, 1.0, 1.0, 1.0, 1e-6, 1e6]
+# no absolute magnitude is special: a nanometre object in metres (1e-9..1e-12) or caller costs in tiny / huge units are in the domain
+SCALES = [1.0, 1.0, 1.0, 1.0, 1e-3, 1e-6, 1e-9, 1e-12, 1e3, 1e6, 1e9, 1e12]
+WSCALES = [1.0, 1.0, 1.0, 1.0, 1.0, 1e-6, 1e-9, 1e-12, 1e-15, 1e6, 1e9, 1e12]
+DECOYS = [None, None, None, "edge_length-then-moved", "edge_length-then-moved", "user-length", "many-names"]
+ANISO = [[1.0, 3.0, 0.25], [4.0, 1.0, 1.0], [0.2, 1.0, 5.0], [1.0, 1.0, 7.0], [2.5, 0.4, 1.0]]
 
 
 class GraphInfo:
@@ -254,8 +283,18 @@ def gen_border_start(draw, rnd, G):
     elif style == "inner":
         pool = inner
     elif style == "deep":
-        hop = {v: min(h for t, h in enumerate(G.hops(v)) if t in G.bv and h is not None) for v in inner}
-        mx = max(hop.values())
+        adj = RG.adjacency_lists(G.n, G.E)
+        hop = {v: 0 for v in G.bv}
+        frontier = list(G.bv)
+        while frontier:
+            nxt = []
+            for u in frontier:
+                for w in adj[u]:
+                    if w not in hop:
+                        hop[w] = hop[u] + 1
+                        nxt.append(w)
+            frontier = nxt
+        mx = max(hop[v] for v in inner)
         pool = [v for v in inner if hop[v] == mx]
     else:
         pool = cand
@@ -276,10 +315,10 @@ def gen_targets(draw, rnd, G, entry, start, avoid=()):
     others = [v for v in range(G.n) if G.lab[v] != G.lab[start]]
     notstart = [v for v in comp if v != start] or comp
     if entry == "p2p":
-        tform = draw(st.sampled_from(["int", "int", "list", "list", "set", "tuple", "array"]))
+        tform = draw(st.sampled_from(["int", "int", "list", "list", "set", "tuple", "array", "iter"]))
         style = draw(st.sampled_from(["few", "few", "few", "one", "one", "with-start", "whole-component"]))
     else:
-        tform = draw(st.sampled_from(["list", "list", "list", "set", "set", "tuple", "array"]))
+        tform = draw(st.sampled_from(["list", "list", "list", "set", "set", "tuple", "array", "iter"]))
         style = draw(st.sampled_from(["few", "few", "few", "one", "one", "with-start", "unreachable-extra", "whole-component"]
                                      + (["far", "far", "far", "far"] if avoid else [])))
     if tform == "int" or style == "one":
@@ -332,6 +371,8 @@ def query_case(draw, entry):
     case["export"] = draw(st.sampled_from(["omitted", False, True, True]))
     case["idform"] = draw(st.sampled_from(["int", "int", "int", "numpy"]))
     case["intcoords"] = draw(st.booleans())
+    case["decoy"] = draw(st.sampled_from(DECOYS))
+    case["aniso"] = draw(st.sampled_from(ANISO))
     # start / targets: uniform picks from a drawn seed (Hypothesis' integer draws are biased towards 0, which would make
     # start == target in most cases); the realised values are stored in the case
     rnd = random.Random(draw(st.integers(0, 10 ** 6)))
@@ -346,7 +387,9 @@ def query_case(draw, entry):
 
 @st.composite
 def history_case(draw):
-    """several queries (and a few in-place edits of coordinates / custom weights) one after another on ONE mesh object"""
+    """several queries (and a few in-place edits of coordinates / custom weights / attributes) one after another on ONE mesh
+    object, optionally interleaved with queries on a second, independent mesh object with the same connectivity but other
+    coordinates and weights (module-level state keyed on sizes / ids would mix them up)"""
     mesh = draw(meshes(kinds=("polyline", "polyline", "border-surface", "border-surface", "volume")))
     case = scale_mesh(draw, dict(mesh))
     G = GraphInfo(case)
@@ -355,61 +398,84 @@ def history_case(draw):
     case["intvals"] = draw(st.booleans())
     case["idform"] = draw(st.sampled_from(["int", "int", "int", "numpy"]))
     case["intcoords"] = draw(st.booleans())
+    case["decoy"] = draw(st.sampled_from([None, None, None, None, "user-length", "many-names"]))
     rnd = random.Random(draw(st.integers(0, 10 ** 6)))
+    two = draw(st.integers(0, 3)) == 0 and "large" not in case["tags"]
+    Vs = [[list(v) for v in case["V"]]]
+    if two:
+        ax = rnd.choice(ANISO)
+        perm = list(range(3)); rnd.shuffle(perm)
+        case["Vb"] = [[v[perm[c]] * ax[c] for c in range(3)] for v in case["V"]]
+        Vs.append([list(v) for v in case["Vb"]])
     nsteps = draw(st.integers(2, 6))
     entries = ["p2p", "p2p", "set", "set", "set"] + (["border", "border"] if G.border_cand else [])
     steps = []
-    prev = None                 # previous query
-    seen_targets = {}           # weight class -> members of earlier set/border target sets
-    V = [list(v) for v in case["V"]]
+    prev = [None, None]                 # previous query per mesh object
+    seen_targets = [{}, {}]             # per object: weight class -> members of earlier set/border target sets
     while len([s for s in steps if "entry" in s]) < nsteps:
-        if steps and prev is not None and draw(st.integers(0, 9)) == 0:
-            if draw(st.booleans()) or nE == 0:
-                # in-place edit of the geometry: a uniform rescaling about the origin or a few moved vertices
-                if draw(st.booleans()):
+        m = rnd.randrange(2) if two else 0
+        V = Vs[m]
+        if steps and draw(st.integers(0, 6)) == 0:
+            kind = draw(st.sampled_from(["setV", "setV", "setW", "edge_length", "edge_length", "decoy"]))
+            if kind == "setW" and nE == 0:
+                kind = "setV"
+            if kind == "setV":
+                # in-place edit of the geometry: uniform / anisotropic rescaling about the origin or a few moved vertices
+                style = draw(st.sampled_from(["uniform", "aniso", "aniso", "move", "move"]))
+                if style == "uniform":
                     f = rnd.choice([0.5, 2.0, 3.0, 10.0])
                     upd = [[i, [x * f for x in V[i]]] for i in range(G.n)]
+                elif style == "aniso":
+                    ax = rnd.choice(ANISO)
+                    upd = [[i, [V[i][c] * ax[c] for c in range(3)]] for i in range(G.n)]
                 else:
                     lo = [min(v[c] for v in V) for c in range(3)]; hi = [max(v[c] for v in V) for c in range(3)]
                     upd = [[i, [rnd.uniform(lo[c], hi[c] if hi[c] > lo[c] else lo[c] + 1.0) for c in range(3)]]
                            for i in rnd.sample(range(G.n), min(G.n, rnd.randint(1, 3)))]
                 for i, p in upd:
                     V[i] = list(p)
-                steps.append({"op": "setV", "updates": upd})
-            else:
+                steps.append({"op": "setV", "m": m, "updates": upd})
+            elif kind == "setW":
                 t = rnd.randrange(2)
                 base = case["wkinds"][t].split("*")
                 ws = float(base[1]) if len(base) > 1 else 1.0
                 ks = rnd.sample(range(nE), min(nE, rnd.randint(1, 4)))
                 vals = realise_weights(rnd, base[0], len(ks))
-                steps.append({"op": "setW", "wtab": t, "updates": [[k, w * ws] for k, w in zip(ks, vals)]})
+                steps.append({"op": "setW", "m": m, "wtab": t, "updates": [[k, w * ws] for k, w in zip(ks, vals)]})
+            elif kind == "edge_length":
+                # the caller stores the current edge lengths on the mesh (attributes.edge_length, persistent attribute "length")
+                steps.append({"op": "edge_length", "m": m})
+            else:
+                steps.append({"op": "decoy", "m": m, "seed": rnd.randrange(10 ** 6)})
             continue
         entry = draw(st.sampled_from(entries))
-        q = {"entry": entry}
-        if prev is not None and draw(st.integers(0, 9)) < 6:
-            q["wmode"], q["wtab"] = prev["wmode"], prev["wtab"]
+        q = {"entry": entry, "m": m}
+        pv = prev[m]
+        if pv is not None and draw(st.integers(0, 9)) < 6:
+            q["wmode"], q["wtab"] = pv["wmode"], pv["wtab"]
         else:
             q["wmode"], q["wtab"] = draw(st.sampled_from(WMODES)), draw(st.integers(0, 1))
         q["export"] = draw(st.sampled_from(["omitted", "omitted", False, True]))
+        q["scramble"] = draw(st.booleans())
         wclass = weight_class(q["wmode"], q["wtab"])
-        avoid = seen_targets.get(wclass, set())
+        avoid = seen_targets[m].get(wclass, set())
         if entry == "border":
-            if prev is not None and prev["start"] in G.border_cand and draw(st.booleans()):
-                q["start"] = prev["start"]
+            if pv is not None and pv["start"] in G.border_cand and draw(st.booleans()):
+                q["start"] = pv["start"]
             else:
                 q["start"] = gen_border_start(draw, rnd, G)
             q["targets"], q["tform"] = [], "border"
             members = G.bv
         else:
-            if prev is not None and draw(st.integers(0, 9)) < 6:
-                q["start"] = prev["start"]
+            if pv is not None and draw(st.integers(0, 9)) < 6:
+                q["start"] = pv["start"]
             else:
                 q["start"] = gen_start(draw, rnd, G)
             q["targets"], q["tform"] = gen_targets(draw, rnd, G, entry, q["start"], avoid=avoid)
             members = set(q["targets"]) if entry == "set" else set()
-        seen_targets.setdefault(wclass, set()).update(members)
+        seen_targets[m].setdefault(wclass, set()).update(members)
         steps.append(q)
-        prev = q
+        prev[m] = q
     case["steps"] = steps
     return case
 
@@ -429,8 +495,8 @@ def dist3(p, q):
     return math.sqrt(math.fsum((float(a) - float(b)) ** 2 for a, b in zip(p, q)))
 
 
-def build_mesh(case):
-    V = case["V"]
+def build_mesh(case, V=None):
+    V = case["V"] if V is None else V
     if case.get("intcoords") and all(float(x).is_integer() and abs(x) < 2 ** 40 for v in V for x in v):
         # integer-typed coordinates (numpy int64 rows), as obtained from integer arrays
         import numpy as np
@@ -518,15 +584,17 @@ def check_polyline(ctx, sig, pm, paths, V, start):
 class Env:
     """one mesh object + the harness's model of it (coordinates, custom weight tables, the weight argument objects)"""
 
-    def __init__(self, case, ctx):
+    def __init__(self, case, ctx, variant=0):
         self.case, self.ctx = case, ctx
         self.kind = case["kind"]
-        self.V = [[float(x) for x in v] for v in case["V"]]
+        self.V = [[float(x) for x in v] for v in (case["Vb"] if variant else case["V"])]
         self.n = len(self.V)
         self.E = ref_edges(case)
         self.lab = RG.component_labels(self.n, self.E)
         self.tabs = [list(map(float, t)) for t in (case["Wt"] if "Wt" in case else [case["W"]])]
-        self.mesh, self.int_coords = build_mesh(case)
+        self.tabmap = [1, 0] if (variant and len(self.tabs) == 2) else list(range(len(self.tabs)))   # the second object swaps the tables
+        self.tabs = [self.tabs[i] for i in self.tabmap]
+        self.mesh, self.int_coords = build_mesh(case, self.V)
         try:
             self.medges = [key(e) for e in self.mesh.edges]
         except Exception as e:
@@ -561,6 +629,9 @@ class Env:
                 self.ctx.label("dict-of-ints")
             else:
                 arg = {i: float(self.wvalue(tab, k)) for i, k in enumerate(self.medges)}
+            items = list(arg.items())
+            random.shuffle(items)             # insertion order of the caller's dict is arbitrary (seeded from the case by the runner)
+            arg = dict(items)
         else:
             arg = self.mesh.edges.create_attribute(f"c09_w{tab}_{wmode}", float, dense=(wmode == "attr_dense"))
             for i, k in enumerate(self.medges):
@@ -602,6 +673,44 @@ class Env:
                 else:
                     arg[i] = float(w)
 
+    # ---- attributes a caller may legitimately keep on the mesh; none of them is an input of the queries
+    def add_edge_length(self):
+        import mouette as M
+        M.attributes.edge_length(self.mesh)            # persistent edge attribute "length" holding the CURRENT lengths
+
+    def add_decoys(self, which, seed):
+        rnd = random.Random(seed)
+        lmax = max([dist3(self.V[a], self.V[b]) for a, b in self.E] + [1.0])
+        def fill(container, name, n, typ=float):
+            if container.has_attribute(name):
+                a = container.get_attribute(name)
+            else:
+                a = container.create_attribute(name, typ, dense=rnd.random() < 0.5)
+            for i in range(n):
+                a[i] = rnd.uniform(0.0, 2.0 * lmax) if typ is float else typ(rnd.randrange(0, 5))
+        fill(self.mesh.edges, "length", len(self.medges))
+        if which == "many-names":
+            for name in ("weight", "weights", "one", "distance", "cost"):
+                fill(self.mesh.edges, name, len(self.medges))
+            for name in ("distance", "dist"):
+                fill(self.mesh.vertices, name, self.n)
+            for name in ("visited", "parent", "path", "border", "target"):
+                fill(self.mesh.vertices, name, self.n, int)
+
+    def length_attr_state(self):
+        """None: no edge attribute "length"; "fresh": it holds the current lengths; "stale": it holds something else"""
+        try:
+            if not self.mesh.edges.has_attribute("length"):
+                return None
+            a = self.mesh.edges.get_attribute("length")
+            for i, k in enumerate(self.medges):
+                d = dist3(self.V[k[0]], self.V[k[1]])
+                if abs(float(a[i]) - d) > 1e-9 * max(d, 1e-300):
+                    return "stale"
+            return "fresh"
+        except Exception as e:
+            raise AssertionError(f"harness cannot read the length attribute: {e!r}")
+
     # ---- nothing handed to the library may be changed by it
     def check_unchanged(self, sig, what):
         ctx = self.ctx
@@ -635,11 +744,13 @@ def make_ids(idform, tform, start, targets):
         targ = tuple(cv(t) for t in targets)
     elif tform == "array":
         targ = np.array([int(t) for t in targets], dtype=np.int64)
+    elif tform == "iter":
+        targ = iter([cv(t) for t in targets])          # a one-shot iterable
     else:
         targ = [cv(t) for t in targets]
 
     def unchanged():
-        if tform == "int":
+        if tform in ("int", "iter"):
             return True
         if tform == "array":
             return isinstance(targ, np.ndarray) and [int(x) for x in targ] == [int(t) for t in targets]
@@ -649,7 +760,40 @@ def make_ids(idform, tform, start, targets):
     return s, targ, unchanged
 
 
+def scramble(x, depth=0):
+    """the caller owns what a query returned: overwrite it in place (later queries must not depend on it)"""
+    import mouette as M
+    if isinstance(x, dict):
+        for v in list(x.values()):
+            scramble(v, depth + 1)
+        x.clear()
+        x[-3] = [0]
+    elif isinstance(x, list):
+        x.reverse()
+        x.append(-7)
+        x[:] = x[::2]
+    elif isinstance(x, tuple) and depth < 3:
+        for v in x:
+            scramble(v, depth + 1)
+    elif isinstance(x, M.mesh.PolyLine):
+        # rebinding entries of the polyline's own containers (never an in-place edit of a coordinate vector)
+        for i in range(len(x.vertices)):
+            x.vertices[i] = M.Vec(1e30, -1e30, 0.5)
+        for i in range(len(x.edges)):
+            x.edges[i] = (0, 0)
+
+
 def run_query(env, q, ctx, where=""):
+    out = []
+    ok = _run_query(env, q, ctx, where, out)
+    if ok and q.get("scramble"):
+        ctx.label("hist:returned-objects-overwritten-by-caller")
+        for x in out:
+            scramble(x)
+    return ok
+
+
+def _run_query(env, q, ctx, where, out):
     """issue one query on env.mesh and validate the answer against the reference. Returns False if later queries of a
     history should not be judged any more."""
     from mouette.processing import paths as LP
@@ -672,6 +816,12 @@ def run_query(env, q, ctx, where=""):
         ctx.label("wkind=" + (env.case["wkinds"][tab] if "wkinds" in env.case else env.case["wkind"]))
     if any(w == 0.0 for _, _, w in wedges):
         ctx.label("has-zero-weight-edge")
+    if wc == "length":
+        st_len = env.length_attr_state()
+        if st_len is not None:
+            ctx.label("length-query-on-mesh-carrying-a-" + st_len + "-'length'-attribute")
+    if wmax > 0:
+        ctx.label("weight-magnitude=1e%+03d" % (3 * int(math.floor(math.log10(wmax) / 3.0))))
 
     args, kwargs = [], {}
     if warg is not None:
@@ -712,6 +862,7 @@ def run_query(env, q, ctx, where=""):
         env.history.append((wclass, "p2p", set(tset)))
         if not ok:
             return False
+        out.append(res)
         ctx.check(targ_unchanged(), sig + ":targets-changed", f"{what}: the targets argument was modified by the call: {targ!r}")
         env.check_unchanged(sig, what)
         pm = None
@@ -756,6 +907,7 @@ def run_query(env, q, ctx, where=""):
         env.history.append((wclass, "set", set(tset)))
         if not ok:
             return False
+        out.append(res)
         ctx.check(targ_unchanged(), sig + ":targets-changed", f"{what}: the targets argument was modified by the call: {targ!r}")
         env.check_unchanged(sig, what)
         nret = 3 if want_mesh else 2
@@ -812,6 +964,7 @@ def run_query(env, q, ctx, where=""):
         env.history.append((wclass, "border", set(bv)))
         if not ok:
             return False
+        out.append(res)
         env.check_unchanged(sig, what)
         pm = None
         if want_mesh:
@@ -839,11 +992,25 @@ def run_query(env, q, ctx, where=""):
 
 def label_mesh(case, env, ctx):
     for t in case.get("tags", []):
-        if t.startswith(("base=", "shape=", "comps=", "closed", "bordered", "second-component", "isolated", "coords=", "scale=")):
+        if t.startswith(("base=", "shape=", "comps=", "closed", "bordered", "second-component", "isolated", "coords=", "scale=", "large")):
             ctx.label(t)
     ctx.label("kind=" + case["kind"], "ids=" + case.get("idform", "int"))
     if env.int_coords:
         ctx.label("integer-typed-coordinates")
+
+
+def apply_decoy(case, env, ctx):
+    """state a caller may have put on the mesh before the query (never an input of the query)"""
+    d = case.get("decoy")
+    if not d:
+        return
+    ctx.label("pre=" + d)
+    if d == "edge_length-then-moved":
+        env.add_edge_length()
+        ax = case.get("aniso", [1.0, 3.0, 0.25])
+        env.set_vertices([[i, [v[c] * ax[c] for c in range(3)]] for i, v in enumerate(env.V)])
+    else:
+        env.add_decoys(d, len(env.V) + 17 * len(env.E))
 
 
 def fn(case, ctx):
@@ -852,32 +1019,51 @@ def fn(case, ctx):
     if not env.ok:
         return
     label_mesh(case, env, ctx)
+    apply_decoy(case, env, ctx)
     run_query(env, case, ctx)
 
 
 def fn_history(case, ctx):
-    """several queries, interleaved with in-place edits of coordinates / custom weights, on ONE mesh object"""
-    env = Env(case, ctx)
-    if not env.ok:
+    """several queries, interleaved with in-place edits of coordinates / custom weights / attributes, on ONE mesh object
+    (optionally alternating with a second independent object of the same connectivity)"""
+    envs = [Env(case, ctx)]
+    if not envs[0].ok:
         return
-    label_mesh(case, env, ctx)
+    label_mesh(case, envs[0], ctx)
+    apply_decoy(case, envs[0], ctx)
+    if "Vb" in case:
+        envs.append(Env(case, ctx, variant=1))
+        ctx.label("hist:two-independent-mesh-objects-interleaved")
+        if not envs[1].ok:
+            return
     steps = case["steps"]
     queries = [s for s in steps if "entry" in s]
     ctx.label("queries=" + str(len(queries)))
-    seen = []
+    seen = [[], []]
     k = 0
     for s in steps:
-        if s.get("op") == "setV":
+        m = int(s.get("m", 0))
+        env = envs[m]
+        op = s.get("op")
+        if op == "setV":
             env.set_vertices(s["updates"])
             ctx.label("hist:geometry-edited-between-queries")
             continue
-        if s.get("op") == "setW":
+        if op == "setW":
             env.set_weights(int(s["wtab"]), s["updates"])
             ctx.label("hist:custom-weights-edited-between-queries")
             continue
+        if op == "edge_length":
+            env.add_edge_length()
+            ctx.label("hist:attributes.edge_length-called-between-queries")
+            continue
+        if op == "decoy":
+            env.add_decoys("many-names", int(s["seed"]))
+            ctx.label("hist:unrelated-attributes-added-between-queries")
+            continue
         k += 1
         wcl = weight_class(s["wmode"], int(s.get("wtab", 0)))
-        for (e0, w0, st0, tg0) in seen:
+        for (e0, w0, st0, tg0) in seen[m]:
             if w0 == wcl and e0 in ("set", "border") and s["entry"] in ("set", "border"):
                 ctx.label("hist:set/border-query-repeated-with-same-weights")
                 if (e0, tg0) != (s["entry"], sorted(set(s["targets"]))):
@@ -888,9 +1074,10 @@ def fn_history(case, ctx):
                 ctx.label("hist:weight-mode-switched")
             if st0 == s["start"]:
                 ctx.label("hist:same-start-again")
-        seen.append((s["entry"], wcl, s["start"], sorted(set(s["targets"]))))
-        prev = [x["entry"] for x in queries[:k - 1]]
-        if not run_query(env, s, ctx, where=f"query #{k} of {len(queries)} on the same mesh (earlier: {prev[-4:]}): "):
+        seen[m].append((s["entry"], wcl, s["start"], sorted(set(s["targets"]))))
+        prev = [("B:" if x.get("m") else "") + x["entry"] for x in queries[:k - 1]]
+        which = "the second mesh object" if m else "the same mesh"
+        if not run_query(env, s, ctx, where=f"query #{k} of {len(queries)} on {which} (earlier: {prev[-4:]}): "):
             return
 
 
